@@ -55,15 +55,15 @@ class C11(PropBase):
         dt = max(ref.stmin_ns(pa['stmin']), ref.stmin_ns(pb['stmin']), 1000000) + 1
         rounds = 2 * (total[0] + total[1]) + 8 + (nmsg[0] + nmsg[1]) * 4 + 60
         for k in range(rounds):
-            ops.append({'op': 'deliver', 'i': 0, 'j': 1, 'n': 100000})
-            ops.append({'op': 'process', 'i': 1})
-            ops.append({'op': 'deliver', 'i': 1, 'j': 0, 'n': 100000})
-            ops.append({'op': 'process', 'i': 0})
-            ops.append({'op': 'tick', 'dt': 60000000 if k % 8 == 7 else dt})
+            ops.append({'op': 'deliver', 'i': 0, 'j': 1, 'n': 100000, 'keep': True})
+            ops.append({'op': 'process', 'i': 1, 'keep': True})
+            ops.append({'op': 'deliver', 'i': 1, 'j': 0, 'n': 100000, 'keep': True})
+            ops.append({'op': 'process', 'i': 0, 'keep': True})
+            ops.append({'op': 'tick', 'dt': 60000000 if k % 8 == 7 else dt, 'keep': True})
         for _ in range(4):
-            ops.append({'op': 'tick', 'dt': 150000000})
-            ops.append({'op': 'process', 'i': 0})
-            ops.append({'op': 'process', 'i': 1})
+            ops.append({'op': 'tick', 'dt': 150000000, 'keep': True})
+            ops.append({'op': 'process', 'i': 0, 'keep': True})
+            ops.append({'op': 'process', 'i': 1, 'keep': True})
         return {'ops': ops, 'meta': {'side': side, 'kind': kind, 'n': n}}
 
     def project(self, op_line, out_line):
